@@ -19,6 +19,7 @@ persist  G3/O3  the same machinery with '..' routes, save_as forms, slash/space/
                 output directory, nothing else changes.
 """
 import fnmatch
+import glob
 import logging
 import os
 import shlex
@@ -438,6 +439,24 @@ def check_contain(case):
         kind = sf.RawFileProvider if raw else sf.TextFileProvider
         providers, rejected = [], 0
         k = probe["kind"]
+        # what the probe names, classified by the harness (labels only: shows that refusals are earned)
+        named = probe.get("paths")
+        if named is None:
+            named = [probe["tmpl"] % _tup(e) for e in probe["elems"]]
+        sib_roots = [os.path.join(base, x) for x in c_layout(case)["sibs"]]
+        for q in named:
+            hits = glob.glob(os.path.join(root, q.lstrip("/")))
+            if not hits:
+                labels.append("names:nothing")
+            for h in hits[:4]:
+                hr = os.path.realpath(h)
+                what = "dir" if os.path.isdir(hr) else "file"
+                if ref_inside(hr, rroot):
+                    labels.append("names:inside-" + what)
+                elif any(is_within(hr, x) for x in sib_roots):
+                    labels.append("names:prefix-sibling-" + what)
+                else:
+                    labels.append("names:outside-" + what)
         if k in ("TextFileProvider", "RawFileProvider"):
             cls = sf.RawFileProvider if k == "RawFileProvider" else sf.TextFileProvider
             raw = k == "RawFileProvider"
@@ -524,7 +543,7 @@ def check_contain(case):
         labels.append("served-through-link-or-dotdot")
     if case["sibs"]:
         labels.append("prefix-sibling")
-    return {"nontrivial": bool(case["sibs"]) and (has_dd or has_link), "labels": labels}
+    return {"nontrivial": bool(case["sibs"]) and (has_dd or has_link), "labels": sorted(set(labels))}
 
 
 # ---- generator ---------------------------------------------------------------------------------
@@ -1226,9 +1245,9 @@ def strat_persist(tier):
 # =================================================================================================
 
 SUBS = [
-    Sub("contain", check_contain, strategy=strat_contain, quick=160, thorough=6000, workers_quick=4),
-    Sub("deny", check_deny, strategy=strat_deny, quick=100, thorough=4000, workers_quick=4),
-    Sub("persist", check_persist, strategy=strat_persist, quick=70, thorough=3000, workers_quick=4),
+    Sub("contain", check_contain, strategy=strat_contain, quick=160, thorough=4000, workers_quick=4),
+    Sub("deny", check_deny, strategy=strat_deny, quick=100, thorough=2500, workers_quick=4),
+    Sub("persist", check_persist, strategy=strat_persist, quick=70, thorough=2000, workers_quick=4),
 ]
 
 _BASE_C = {"rname": "root", "sibs": ["2"], "nest": False, "rootform": "plain", "ctx": "archive", "links": []}
